@@ -45,7 +45,8 @@ def rvq_cases(ctx, rng, scale, cases, meta, failures, dist):
         mode = ['eval', 'train', 'frozen'][(ci // 2) % 3]
         shared = (ci % 5 == 1)
         cosine = (ci % 7 == 2) and not shared
-        implicit = (ci % 9 == 4) and not shared and nq > 1 and not cosine   # the library rejects cosine + implicit (learnable) codebooks
+        learnable = (ci % 11 == 6) and not cosine
+        implicit = (ci % 9 == 4) and not shared and nq > 1 and not cosine and not learnable   # the library rejects cosine + implicit (learnable) codebooks
         proj = (ci % 4 == 3)
         masked = (ci % 6 == 5)
         d = rng.choice([2, 3])
@@ -55,6 +56,8 @@ def rvq_cases(ctx, rng, scale, cases, meta, failures, dist):
                   implicit_neural_codebook=implicit, decay=0.5, threshold_ema_dead_code=0)
         if not tuple_sizes:
             kw['num_quantizers'] = nq
+        if learnable:
+            kw.update(learnable_codebook=True, ema_update=False)
         if implicit:
             kw['mlp_kwargs'] = dict(dim_hidden=4, depth=1)
         try:
@@ -62,10 +65,33 @@ def rvq_cases(ctx, rng, scale, cases, meta, failures, dist):
         except Exception as ex:
             failures.append({'key': f'rvq:construct:{type(ex).__name__}', 'what': f'ResidualVQ({kw}): {ex!r}', 'case': dict(kw=kw)})
             continue
-        # some training history so that codebooks differ from their initialisation
+        # HISTORY on this one instance: (optionally) a pure decode-style read first, then training steps, optimiser steps on learnable
+        # parameters, a state_dict reload - the call under test must see the codebooks as they are at that call
+        pre_read = ci % 2 == 0
+        if pre_read:
+            rvq.eval()
+            with torch.no_grad():
+                _, pidx, _, _ = rvq(torch.randn(1, 2, kw['dim']), return_all_codes=True)
+                rvq.get_codes_from_indices(pidx)
+                rvq.get_output_from_indices(pidx)
+            dist['hist_pre_read'] += 1
         rvq.train()
         for _ in range(rng.choice([0, 1, 2])):
             rvq(torch.randn(2, 4, kw['dim']))
+        params = [p_ for p_ in rvq.parameters() if p_.requires_grad]
+        if params and ci % 3 != 2:
+            o_, i_, l_, _ = rvq(torch.randn(2, 4, kw['dim']), return_all_codes=True)
+            (o_.sum() + l_.sum()).backward()
+            torch.optim.SGD(params, lr=0.1).step()
+            for p_ in params:
+                p_.grad = None
+            dist['hist_opt_step'] += 1
+        if ci % 4 == 1:
+            other = ResidualVQ(**kw)
+            other.train()
+            other(torch.randn(2, 4, kw['dim']))
+            rvq.load_state_dict(copy.deepcopy(other.state_dict()))
+            dist['hist_reload'] += 1
         exact = (not proj) and (not cosine) and (not implicit) and rng.random() < 0.5
         if exact:
             for layer in (rvq.layers[:1] if shared else rvq.layers):
@@ -265,7 +291,7 @@ def grouped_cases(ctx, rng, scale, failures, dist):
 def correspond(ctx, scale):
     rng = ctx.rng
     cases, meta, failures, samples = [], [], [], []
-    dist = {k: 0 for k in ('rvq_eval', 'rvq_train', 'rvq_frozen', 'rvq_shared', 'rvq_cosine', 'rvq_implicit', 'rvq_masked', 'rfsq', 'rlfq', 'rsimvq', 'grvq', 'grfsq', 'grlfq')}
+    dist = {k: 0 for k in ('rvq_eval', 'rvq_train', 'rvq_frozen', 'rvq_shared', 'rvq_cosine', 'rvq_implicit', 'rvq_masked', 'hist_pre_read', 'hist_opt_step', 'hist_reload', 'rfsq', 'rlfq', 'rsimvq', 'grvq', 'grfsq', 'grlfq')}
     nt = rvq_cases(ctx, rng, scale, cases, meta, failures, dist)
     ev2, nt2 = scalar_and_sim_cases(ctx, rng, scale, failures, dist)
     ev3 = grouped_cases(ctx, rng, scale, failures, dist)
